@@ -954,11 +954,14 @@ def cases_soseos(ctx):
 
     def gen():
         for cls in ("spect", "lang"):
-            for sos, eos in ((None, None), (SOS, None), (None, EOS), (SOS, EOS), (0 + 9, 0 + 3)):
+            for sos, eos in ((None, None), (SOS, None), (None, EOS), (SOS, EOS), (0 + 9, 0 + 3), (4, 0), (0, 4)):
+                # symbol value 0 is a legitimate configuration when the token ids do not use it: shifted alphabet, own junk
+                alpha = alphabet if 0 not in (sos, eos) else [1, 2, 3]
+                junk_ = junk if 0 not in (sos, eos) else [([], []), ([5], []), ([], [5]), ([sos, 5], [5, eos]), ([5, sos], [eos, 5])]
                 for tokens_only in (False, True):
-                    for R in range(0, Rmax + 1):
-                        for toks in itertools.product(alphabet, repeat=R):
-                            base = {"sos": sos, "eos": eos, "tokens_only": tokens_only, "cls": cls, "junk": junk, "float_hyp": R <= 2}
+                    for R in range(0, Rmax + 1 if 0 not in (sos, eos) else 3):
+                        for toks in itertools.product(alpha, repeat=R):
+                            base = {"sos": sos, "eos": eos, "tokens_only": tokens_only, "cls": cls, "junk": junk_, "float_hyp": R <= 2}
                             yield dict(base, ref=sp("int64", [R], list(toks)))
                             # 2-D: each row with unknown or known boundaries
                             for bsel in itertools.product((0, 1), repeat=R) if R <= 2 or not ctx.quick else [(0,) * R, (1,) * R, (0, 1, 0)[:R]]:
@@ -1174,7 +1177,7 @@ def run_bounded(ctx):
                     nontrivial=lambda c: True, chunk=128, functions=["command_line.get_torch_spect_data_dir_info", "_datasets._info_and_validate"])
     if _wanted(ctx, "C12.soseos.inverse"):
         ctx.bounded("C12.soseos.inverse", check_soseos, cases_soseos(ctx),
-                    bound="stored transcripts: every 1-D token list of R<=%d over {0,1,2} and its 2-D versions (each row with unknown or known boundaries); (sos,eos) in {none, 7/-, -/8, 7/8, 9/3}; SpectDataSet (tokens_only both) and LangDataSet; "
+                    bound="stored transcripts: every 1-D token list of R<=%d over {0,1,2} and its 2-D versions (each row with unknown or known boundaries); (sos,eos) in {none, 7/-, -/8, 7/8, 9/3, 4/0, 0/4 (the last two over {1,2,3}, R<=2)}; SpectDataSet (tokens_only both) and LangDataSet; "
                           "hypotheses = the transcript as read, a float copy, and with extra symbols/sos before and symbols/eos after%s" % (
                               3 if ctx.quick else 4, "" if ctx.quick else "; int32 storage; 20000 seeded random transcripts R<=8 over 0..20"),
                     text="__getitem__ returns sos + stored transcript + eos for every transcript (empty included; 2-D rows [sym,-1,-1]); write_hyp of that (also with leading/trailing material per its docs) stores exactly the bare tokens as a long tensor",
